@@ -76,6 +76,13 @@ def boundOK (r B : Int) : List (Int × Out) → Bool
   | [] => true
   | c :: rest => boundFrom r B (c :: rest) && boundOK r B rest
 
+/-- whatever the clock did before: when a call is rejected with `resetSeconds = R` and the key's next
+    call comes at least `R` seconds later, that call is admitted -/
+def retryHolds : List (Int × Out) → Bool
+  | (t1, o1) :: (t2, o2) :: rest =>
+    (if !o1.allowed && decide (t2 ≥ t1 + 512 * o1.reset) then o2.allowed else true) && retryHolds ((t2, o2) :: rest)
+  | _ => true
+
 /-- the calls of one key, in order -/
 def project (key : Bytes) (calls : List (Bytes × Int)) (outs : List Out) : List (Int × Out) :=
   (calls.zip outs).filterMap fun co => if co.1.1 == key then some (co.1.2, co.2) else none
@@ -84,12 +91,13 @@ def keysOf (calls : List (Bytes × Int)) : List Bytes := (calls.map (·.1)).eras
 
 /-- the token-bucket oracle on a whole store trace: keys are judged independently (each against
     its own reference bucket created full at its first call); a key whose clock never regresses must
-    agree with the reference call by call; every key must respect the admission bound -/
+    agree with the reference call by call; every key must respect the admission bound and honour
+    its own Retry-After -/
 def bucketSpecOK (r B : Int) (calls : List (Bytes × Int)) (outs : List Out) : Bool :=
   outs.length == calls.length &&
   (keysOf calls).all fun k =>
     let p := project k calls outs
-    boundOK r B p &&
+    boundOK r B p && retryHolds p &&
     (match p with
      | [] => true
      | (t0, _) :: _ => if sorted (p.map (·.1)) then refAgrees r B { level := B, at_ := t0 } p else true)
